@@ -57,6 +57,8 @@ def _run_mutant(args):
             ctx = Ctx('quick', d)
             mod = importlib.import_module(f'sa.rules.{module_name}')
             out = mod.run(ctx)
+            if m.get('tier') == 'thorough':
+                out['results'].extend(extra_rules(prop, ctx))
             for r in out['results']:
                 report.apply_allow(r, ctx.allow)
         except AnalysisError as err:
@@ -162,8 +164,20 @@ def typed_c18(ctx, quick_out) -> RuleResult:
     return res
 
 
+INTERPROC = {'C05': 'R05.8', 'C15': 'R15.5', 'C16': 'R16.7'}
+
+
+def extra_rules(prop: str, ctx) -> list:
+    """rules that only the thorough tier runs (no controls here)"""
+    out = []
+    if prop in INTERPROC:
+        from .rules.interproc import mutation_through_callee
+        out.append(mutation_through_callee(ctx, INTERPROC[prop], {}))
+    return out
+
+
 def run(prop: str, ctx, quick_out) -> dict:
-    results = [controls(prop)]
+    results = [controls(prop)] + extra_rules(prop, ctx)
     counts = {'positive_controls': len(results[0].instances)}
     expl = (f'Thorough tier: {len(results[0].instances)} catalogued mutants/refactorings of this '
             f'property were re-applied to a scratch copy of the current tree and behaved as '
@@ -171,4 +185,7 @@ def run(prop: str, ctx, quick_out) -> dict:
     if prop == 'C18':
         results.append(typed_c18(ctx, quick_out))
         expl += ' mypy --strict ties the implementing bodies to their return annotations.'
+    if prop in INTERPROC:
+        expl += (' Interprocedural mutation summaries (fixpoint over the resolved call graph) '
+                 'extend the operand-immutability rules through helper calls.')
     return {'results': results, 'counts': counts, 'explanation': expl}
